@@ -52,7 +52,7 @@ def dispatch (s : DState) (line : String) : DState × String :=
       ({ s with rd := p }, out)
     else if cmd.startsWith "cp." then (s, Drive.Probs.step toks)
     else if cmd.startsWith "fp." then (s, Drive.SoftFloat.step toks)
-    else if cmd.startsWith "ot." || cmd.startsWith "of." then
+    else if cmd.startsWith "ot." || cmd.startsWith "of." || cmd.startsWith "oc." then
       let (p, out) := Drive.OmenTrainer.step s.ot toks
       ({ s with ot := p }, out)
     else if cmd.startsWith "ss." then
